@@ -7,6 +7,7 @@ import (
 
 	"github.com/ThreeDotsLabs/watermill"
 	"github.com/ThreeDotsLabs/watermill/message"
+	"github.com/ThreeDotsLabs/watermill/verifhook"
 	"github.com/hashicorp/go-multierror"
 	"github.com/pkg/errors"
 )
@@ -167,41 +168,56 @@ func (p PubSubBackend[Result]) ListenForNotifications(
 	go func() {
 		defer func() {
 			if p.config.OnListenForReplyFinished == nil {
+				verifhook.At("requestreply.listen.finished", string(params.OperationID), "nohook")
 				return
 			}
 
+			verifhook.At("requestreply.listen.finished", string(params.OperationID), "hook")
 			p.config.OnListenForReplyFinished(ctx, replyContext)
 		}()
 		defer close(replyChan)
+		defer verifhook.At("requestreply.listen.before_close", string(params.OperationID))
 		defer cancel()
+		defer verifhook.At("requestreply.listen.before_cancel", string(params.OperationID))
 
 		for {
 			select {
 			case <-ctx.Done():
+				verifhook.At("requestreply.listen.ctx_done", string(params.OperationID))
+				verifhook.At("requestreply.listen.before_send", string(params.OperationID), "timeout")
 				replyChan <- Reply[Result]{
 					Error: ReplyTimeoutError{time.Since(start), ctx.Err()},
 				}
+				verifhook.At("requestreply.listen.sent", string(params.OperationID), "timeout")
 				return
 			case notifyMsg, ok := <-notifyMsgs:
 				if !ok {
 					// subscriber is closed
+					verifhook.At("requestreply.listen.sub_closed", string(params.OperationID))
+					verifhook.At("requestreply.listen.before_send", string(params.OperationID), "subclosed")
 					replyChan <- Reply[Result]{
 						Error: ReplyTimeoutError{time.Since(start), fmt.Errorf("subscriber closed")},
 					}
+					verifhook.At("requestreply.listen.sent", string(params.OperationID), "subclosed")
 					return
 				}
 
+				verifhook.At("requestreply.listen.recv", string(params.OperationID), notifyMsg.UUID)
 				resp, ok, unmarshalErr := p.handleNotifyMsg(notifyMsg, string(params.OperationID), p.marshaler)
 				if unmarshalErr != nil {
+					verifhook.At("requestreply.listen.before_send", string(params.OperationID), "unmarshal")
 					replyChan <- Reply[Result]{
 						Error: ReplyUnmarshalError{unmarshalErr},
 					}
+					verifhook.At("requestreply.listen.sent", string(params.OperationID), "unmarshal")
 				} else if ok {
+					verifhook.At("requestreply.listen.before_send", string(params.OperationID), "reply")
 					replyChan <- Reply[Result]{
 						HandlerResult:       resp.HandlerResult,
 						Error:               resp.Error,
 						NotificationMessage: notifyMsg,
 					}
+					verifhook.At("requestreply.listen.sent", string(params.OperationID), "reply")
 				}
 
 				// we assume that more messages may arrive (in case of fan-out commands handling) - we don't exit yet
